@@ -72,8 +72,19 @@ func ruleC13(w *World, r *Report) {
 				return
 			}
 			for _, pair := range [][2]ssa.Value{{x.X, x.Y}, {x.Y, x.X}} {
-				if strings.HasSuffix(symOf(pair[0]).String(), "fars[].farID") {
-					if phi, ok := pair[1].(*ssa.Phi); ok {
+				a, b := pair[0], pair[1]
+				narrowed := false
+				if cv, ok := a.(*ssa.Convert); ok {
+					if fb, _, ok1 := widthOf(cv.X.Type()); ok1 {
+						if tb, _, ok2 := widthOf(cv.Type()); ok2 && tb < fb {
+							narrowed = true
+						}
+					}
+					a = cv.X
+				}
+				if strings.HasSuffix(symOf(a).String(), "fars[].farID") {
+					r.check(!narrowed, "R13.2", hn, "the FAR of the downlink PDR is found by its full 32-bit ID", w.Pos(x.Pos()), "no narrowing", "FAR IDs are compared after narrowing to "+x.X.Type().String()+": a downlink FAR whose ID is above 65535 is confused with the FAR that has the same low bits — the notify test is made on the wrong FAR and the report is discarded (or sent for a FAR that does not ask for it)")
+					if phi, ok := b.(*ssa.Phi); ok {
 						farPhi = phi
 					}
 				}
@@ -103,6 +114,10 @@ func ruleC13(w *World, r *Report) {
 			load = e
 		}
 		return load
+	}
+	if pdrPhi == nil || farPhi == nil {
+		r.bad("R13.2", hn, "the report names the downlink PDR and tests its FAR", w.Pos(h.Pos()), "the PDR id handed to NewPDRID / the FAR id the FAR loop compares with could not be traced to a choice among the session's PDRs")
+		return
 	}
 	pl, fl := checkPick(pdrPhi, "pdrID"), checkPick(farPhi, "farID")
 	if pl != nil && fl != nil {
@@ -311,6 +326,8 @@ func ruleC13(w *World, r *Report) {
 	ruleC13Dispatch(w, r, h)
 	ruleC13Listeners(w, r)
 	ruleC13SingleCaller(w, r)
+	ruleC13ListenerStarts(w, r)
+	ruleC13ForgetsLate(w, r)
 }
 
 func blockHas(b *ssa.BasicBlock, ins ssa.Instruction) bool {
@@ -828,4 +845,100 @@ func ruleC13SingleCaller(w *World, r *Report) {
 		})
 	}
 	r.floor("R13.6 callers of Notify / shouldNotify", n, 2)
+}
+
+// ruleC13ListenerStarts (R13.7): once the BESS notification socket is connected, the goroutine that
+// reads it is started — on every path from the successful dial to the end of SetUpfInfo, whatever the
+// end-marker set-up that follows does. A connected socket nobody reads loses every downlink data report.
+func ruleC13ListenerStarts(w *World, r *Report) {
+	const P = "C13"
+	f := w.Fn(P, "pfcpiface.(*bess).SetUpfInfo")
+	fn := w.FuncName(f)
+	listen := w.Fn(P, "pfcpiface.(*bess).notifyListen")
+	var dial *ssa.Call
+	allInstrs(f, func(i ssa.Instruction) {
+		c, ok := i.(*ssa.Call)
+		if !ok || calleeName(c) != "net.Dial" {
+			return
+		}
+		// the dial whose connection is stored in notifyBessSocket
+		if ex := extractOf(c, 0); ex != nil && ex.Referrers() != nil {
+			for _, ref := range *ex.Referrers() {
+				if st, ok := ref.(*ssa.Store); ok {
+					if fa, ok := st.Addr.(*ssa.FieldAddr); ok && fieldVar(fa) != nil && fieldVar(fa).Name() == "notifyBessSocket" {
+						dial = c
+					}
+				}
+			}
+		}
+	})
+	if dial == nil {
+		r.bad("R13.7", fn, "the notification socket is dialled in SetUpfInfo", w.Pos(f.Pos()), "no net.Dial whose result is stored in notifyBessSocket")
+		return
+	}
+	errV := extractOf(dial, 1)
+	var start ssa.Instruction
+	for _, b := range f.Blocks {
+		for _, sc := range b.Succs {
+			if errV != nil && nilnessEdge(b, sc, func(x ssa.Value) bool { return x == errV }, true) && len(sc.Instrs) > 0 {
+				start = sc.Instrs[0]
+			}
+		}
+	}
+	if start == nil {
+		r.bad("R13.7", fn, "the dial's error is examined", w.Pos(dial.Pos()), "no err == nil edge after the dial of the notification socket")
+		return
+	}
+	isGo := func(i ssa.Instruction) bool {
+		g, ok := i.(*ssa.Go)
+		return ok && staticCallee(g) == listen
+	}
+	miss := reach(f, start, isReturn, isGo, nil)
+	if isGo(start) {
+		miss = nil
+	}
+	pos := w.Pos(dial.Pos())
+	if miss != nil {
+		pos = w.Pos(miss.Pos())
+	}
+	r.check(miss == nil, "R13.7", fn, "a connected notification socket always gets its reader", w.Pos(dial.Pos()), "go notifyListen on every path after the successful dial", "SetUpfInfo can return (at "+pos+") after the notification socket was connected without starting notifyListen: BESS's downlink data reports pile up in a socket nobody reads and no Session Report Request is ever sent")
+}
+
+// ruleC13ForgetsLate (R13.8): the limiter's memory of a session's last notification may only be dropped
+// once the interval has passed since that notification — a test that involves notificationInterval
+// governs every Delete on the state map. (Today nothing is ever deleted; a sweeper that forgets an entry
+// because its time stamp "is in the past" forgets every entry, and the next report inside the interval is
+// forwarded again.)
+func ruleC13ForgetsLate(w *World, r *Report) {
+	n := 0
+	for _, f := range w.Funcs {
+		if strings.HasPrefix(w.FuncName(f), "test/") {
+			continue
+		}
+		allInstrs(f, func(i ssa.Instruction) {
+			c, ok := i.(*ssa.Call)
+			if !ok {
+				return
+			}
+			name := calleeName(c)
+			if name != "(*sync.Map).Delete" && name != "(*sync.Map).LoadAndDelete" && name != "(*sync.Map).Clear" {
+				return
+			}
+			if !strings.Contains(symOf(c.Call.Args[0]).String(), "downlinkDataNotifier.state") {
+				return
+			}
+			n++
+			g := onlyVia(f, c, func(a, b *ssa.BasicBlock) bool {
+				ifi := blockIf(a)
+				if ifi == nil {
+					return false
+				}
+				return strings.Contains(symOf(ifi.Cond).String(), "notificationInterval")
+			})
+			r.check(g, "R13.8", w.FuncName(f), "a session's last notification time is forgotten only after the interval", w.Pos(c.Pos()), "guarded by a test on notificationInterval", "the limiter's entry is deleted without a test against notificationInterval: the session's next report within the interval is treated as a first report and forwarded — more than one notification per interval")
+		})
+	}
+	if n == 0 {
+		r.ok("R13.8", "pfcpiface", "the limiter never forgets a notification time", "-", "no Delete on downlinkDataNotifier.state")
+	}
 }
